@@ -545,8 +545,9 @@ func (pr *ProtoArray) inSubtree(anchorIndex NodeIndex, lookupIndex NodeIndex) (u
 	if err != nil {
 		return true, false
 	}
-	if anchorNode.Ref.Slot >= lookupNode.Ref.Slot {
+	if anchorNode.Ref.Slot > lookupNode.Ref.Slot {
 		// anchor is later on the same chain than the looked up node.
+		// (With equal slots the looked up node may still be the block node on top of the anchor slot node.)
 		// So anchor may be in subtree of the looked up node, but not vice versa.
 		return false, false
 	}
